@@ -17,7 +17,7 @@ def run(ctx):
     F = ctx.facts("quick")
     for which in ("pubsub", "reqrep"):
         ex, sd, cfg = routers.report(ctx, F, which, "C16", lambda f: f.kind in ("K7",) or (f.kind == "K6" and "closed" in f.what))
-        ctx.floor("C16.%s.shutdown-states" % which, len(sd.persistent), 6 if which == "pubsub" else 30)
+        ctx.floor("C16.%s.shutdown-states" % which, len(sd.persistent), 3 if which == "pubsub" else 6)
         ctx.check(sd.returns["Ready"] >= 1 and sd.returns["Pending"] == 0, "C16.D1.terminates", "%s:shutdown-returns" % which,
                   "%s router: from each of %d states the shutdown poll finishes (Ready returns: %d, Pending returns: %d)" % (which, len(sd.persistent), sd.returns["Ready"], sd.returns["Pending"]), cfg.body.span)
     # the final flush really reaches every subscriber / requestor: sweep rules of the two combinators' poll_flush
